@@ -1637,6 +1637,7 @@ def direct_cases(chk, tier, rng):
             pass
     complex_cases(chk, tier, rng, svdmod, dcases, dmeta)
     complex_cases_r7(chk, tier, rng, svdmod, dcases, dmeta, RecRS)
+    nn_direct_cases(chk, tier, rng, svdmod, dcases, dmeta)
     reject_cases(chk, svdmod, dcases, dmeta)
     return dcases, dmeta
 
@@ -1815,13 +1816,25 @@ def complex_cases_r7(chk, tier, rng, svdmod, dcases, dmeta, RecRS):
                 continue
             return d1, d2, M, sig
         return None
-    for _ in range(10 if tier == "quick" else 70):
-        wc = well_conditioned()
+    def low_rank():
+        # complex matrix of rank <= 2 with more rows / columns than its rank: the range finder's Q is then NOT square when
+        # n_eigenvecs + n_oversamples is small, although the rank is covered - a wrong conjugate in the reduction / lifting is visible
+        d1, d2 = rng.randint(3, 5), rng.randint(3, 5)
+        rk = rng.randint(1, 2)
+        A_ = np.array([[cv() for _ in range(rk)] for _ in range(d1)]); B_ = np.array([[cv() for _ in range(d2)] for _ in range(rk)])
+        M_ = A_ @ B_
+        return d1, d2, M_, np.linalg.svd(M_, compute_uv=False)
+    for it_ in range(14 if tier == "quick" else 90):
+        wc = low_rank() if it_ % 2 == 1 else well_conditioned()
         if wc is None:
             break
         d1, d2, M, sig = wc
+        if sig.max() == 0:
+            continue
         n = rng.choice([None] + list(range(1, max(d1, d2) + 2)))
         n_over, n_iter, seed = rng.choice([0, 1, 2, 5]), rng.choice([0, 1, 2]), rng.randrange(10 ** 6)
+        if it_ % 2 == 1:
+            n, n_over = rng.randint(1, 2), rng.choice([0, 1])
         qrs, svds = [], []
 
         def rec_qr(a, *args, **kw):
@@ -1861,10 +1874,10 @@ def complex_cases_r7(chk, tier, rng, svdmod, dcases, dmeta, RecRS):
         msg = None
         if np.max(np.abs(U.conj().T @ U - np.eye(U.shape[1])), initial=0.0) > 1e-9 or np.max(np.abs(V @ V.conj().T - np.eye(V.shape[0])), initial=0.0) > 1e-9:
             msg = "factors are not orthonormal (Hermitian inner product)"
-        elif min(k_ + n_over, max(d1, d2)) >= min(d1, d2):
-            if np.max(np.abs(np.real(S) - sig[:p_]), initial=0.0) > 1e-9 * sig.max():
+        elif min(k_ + n_over, max(d1, d2)) >= num_rank(sig):
+            if np.max(np.abs(np.real(S) - sig[:p_]), initial=0.0) > 1e-8 * sig.max():
                 msg = "S differs from the leading singular values although the rank is covered"
-            elif abs(float(np.sum(np.abs(M - (U[:, :p_] * S) @ V[:p_, :]) ** 2)) - float(np.sum(sig[p_:] ** 2))) > 1e-9 * float(np.sum(sig ** 2)):
+            elif abs(float(np.sum(np.abs(M - (U[:, :p_] * S) @ V[:p_, :]) ** 2)) - float(np.sum(sig[p_:] ** 2))) > 1e-8 * float(np.sum(sig ** 2)):
                 msg = "error identity fails although the rank is covered"
         if msg:
             chk.finding("tensorly.tenalg.svd.randomized_svd", inp, msg + " (complex input)", "C05_complex")
@@ -1929,6 +1942,45 @@ def complex_cases_r7(chk, tier, rng, svdmod, dcases, dmeta, RecRS):
             continue
         dcases.append(f"(DIfaceCM {len(dcases)}%nat {d1}%nat {d2}%nat {optnat(n)} {C.boolc(flip)} {C.boolc(ub)} {cmat_lit(M)} {cmat_lit(mask)} {iters}%nat "
                       f"[{'; '.join(ents)}] (Ok {ctriple_lit((U, S, V))}))")
+        dmeta.append(inp)
+
+
+def nn_direct_cases(chk, tier, rng, svdmod, dcases, dmeta):
+    """round 7: make_svd_non_negative called directly on hand-made factors with entries 0 / +-1 whose positive / negative parts have
+    0, 1 or 4 entries and S in {1, 4, 16}: every norm and square root is exact, so EXACT TIES m_p == m_n (the `else` branch: negative
+    parts), zero parts (`continue`) and unequal numbers of U columns / V rows are compared with the model without a conditioning skip"""
+    def vec(n_):
+        while True:
+            v = [rng.choice([1.0, -1.0, 0.0]) for _ in range(n_)]
+            if sum(1 for x in v if x > 0) in (0, 1, 4) and sum(1 for x in v if x < 0) in (0, 1, 4):
+                return v
+    for _ in range(40 if tier == "quick" else 300):
+        a, b = rng.randint(2, 6), rng.randint(2, 6)
+        c = rng.randint(1, 3)
+        r = c if rng.random() < 0.7 else rng.randint(1, 3)
+        U = np.array([vec(a) for _ in range(c)]).T.copy()
+        V = np.array([vec(b) for _ in range(r)])
+        if rng.random() < 0.5 and min(c, r) > 1:
+            # force a tie in column 1: #pos(x) * #pos(y) == #neg(x) * #neg(y)
+            x = [1.0, -1.0] + [0.0] * (a - 2); y = [-1.0, 1.0] + [0.0] * (b - 2)
+            rng.shuffle(x); rng.shuffle(y)
+            U[:, 1] = x; V[1, :] = y
+        S = np.array([rng.choice([1.0, 4.0, 16.0]) for _ in range(max(c, r))])
+        M = np.array([[rng.randint(-8, 8) / 4.0 for _ in range(b)] for _ in range(a)])
+        nt = rng.choice(["nndsvd", "nndsvda", True])
+        out = C.call_impl(lambda: svdmod.make_svd_non_negative(M.copy(), U.copy(), S.copy(), V.copy(), nt))
+        inp = {"call": "make_svd_non_negative", "tensor": M, "U": U, "S": S, "V": V, "nntype": nt}
+        chk.count(key=("make_svd_non_negative", U.shape, V.shape, str(nt), U.tobytes(), V.tobytes()), nontrivial=True)
+        chk.hist("method", "make_svd_non_negative(direct)")
+        if out[0] != "ok":
+            chk.finding("tensorly.tenalg.svd.make_svd_non_negative", inp, f"make_svd_non_negative raised: {str(out[1])[:120]}", "C05_nn_returns")
+            continue
+        W, H = np.asarray(out[1][0]), np.asarray(out[1][1])
+        if W.shape != U.shape or H.shape != V.shape or not (np.all(np.isfinite(W)) and np.all(np.isfinite(H))) or np.any(W < 0) or np.any(H < 0):
+            chk.finding("tensorly.tenalg.svd.make_svd_non_negative", inp, "factors are not finite, non-negative and of the shapes of U, V", "C05_nn_direct")
+            continue
+        ty = "NNDSVD" if nt == "nndsvd" else "NNDSVDA"
+        dcases.append(f"(DNN {len(dcases)}%nat {qmat(M)} {qmat(U)} {qvec(S)} {qmat(V)} {ty} {qmat(W)} {qmat(H)})")
         dmeta.append(inp)
 
 
